@@ -1,4 +1,6 @@
 """C04 — Text exposition is a faithful, parseable rendering of the gathered state (structural clause set, DESIGN §4.C04)."""
+import re
+
 from pvrules.mir import is_call, peel, show, strip_generics, subterms
 from pvrules.rules import const_int, count_range, count_range_region, effect_calls, elem_of, rejecting, try_continue_block, PURE
 from . import text_common as tc
@@ -140,8 +142,10 @@ def rule_R2(ctx, f):
         if not si or si[3] != "char":
             continue
         found = True
-        esc_blocks = {c.bb for c in es.calls() if c.matches(["escape_default", "char::escape_default"])} | \
-                     {c.bb for c in es.calls() if c.matches("String::push_str") and tc.const_str(peel(c.args[1])) and tc.const_str(peel(c.args[1])).startswith('"\\\\')}
+        LIT = {92: '"\\\\\\\\"', 10: '"\\\\n"', 34: '"\\\\\\""'}     # the escape written out for each character (as rustc prints the literal)
+        esc_default = {c.bb for c in es.calls() if c.matches(["escape_default", "char::escape_default"])}
+        esc_lit = {c.bb: tc.const_str(peel(c.args[1])) for c in es.calls() if c.matches("String::push_str") and tc.const_str(peel(c.args[1])) and tc.const_str(peel(c.args[1])).startswith('"\\\\')}
+        esc_blocks = esc_default | set(esc_lit)
         head = [c.bb for c in es.calls_to("Iterator::next")]
         for v, tgt in si[1]:
             for flag in (True, False):
@@ -154,7 +158,11 @@ def rule_R2(ctx, f):
                 reg = es.reach(tgt, avoid_blocks=head, avoid_edges=avoid_edges)
                 raw = [c for c in es.calls() if c.bb in reg and c.matches("String::push")]
                 if reg & esc_blocks and not raw:
-                    handled[flag].add(v)
+                    lits = {esc_lit[x] for x in reg if x in esc_lit}
+                    if (reg & esc_default and not lits) or lits == {LIT.get(v)}:
+                        handled[flag].add(v)
+                    else:
+                        ctx.ob(rid, "escape_string|literal(%d,%s)" % (v, str(flag).lower()), False, "character %d must be escaped as %s (found %s)" % (v, LIT.get(v), sorted(lits)), site=es.span_of_block(tgt))
     ctx.ob(rid, "escape_string|char-switch", found, "escape_string must dispatch on the character", site=es.raw["span"]["at"])
     for flag, must in ((False, {92, 10}), (True, {92, 10, 34})):
         ctx.ob(rid, "escape_string|handled(%s)" % str(flag).lower(), handled[flag] >= must,
@@ -172,6 +180,15 @@ def rule_R2(ctx, f):
         idx = es.calls_to("Index::index")
         pre = [c for c in idx if c.args[1][0] == "agg" and c.args[1][2].endswith("Range::Range") and const_int(c.args[1][3][0]) == 0 and c.args[1][3][1] == first and peel(c.args[0]) == P(1)]
         rest = [c for c in idx if c.args[1][0] == "agg" and c.args[1][2].endswith("RangeFrom::RangeFrom") and c.args[1][3][0] == first and peel(c.args[0]) == P(1)]
+        sa = [c for c in es.calls_to("str::split_at") if peel(c.args[0]) == P(1) and peel(c.args[1]) == first]
+        if len(sa) == 1 and not idx:
+            # `let (prefix, rest) = v.split_at(first)`
+            class _Part:   # the two halves play the role of the two slice expressions
+                def __init__(self, t):
+                    self._t = t
+                def result_term(self):
+                    return self._t
+            pre, rest, idx = [_Part(("field", sa[0].result_term(), "0"))], [_Part(("field", sa[0].result_term(), "1"))], [None, None]
         ctx.ob(rid, "escape_string|prefix-and-rest", len(pre) == 1 and len(rest) == 1 and len(idx) == 2, "the output must be v[0..first] followed by the escaped v[first..]", site=es.raw["span"]["at"])
         if len(pre) == 1 and len(rest) == 1:
             ps = [c for c in es.calls_to("String::push_str") if peel(c.args[1]) == pre[0].result_term()]
@@ -181,7 +198,17 @@ def rule_R2(ctx, f):
         si = es.switch_info(ffc[0].target)
         none_t = [t for v, t in si[1] if v == 0] or [si[2]]
         intos = [c for c in es.calls_to("Into::into") if c.bb in es.reach(none_t[0]) and c.bb not in es.reach([t for v, t in si[1] if v == 1][0])]
-        ctx.ob(rid, "escape_string|no-needle-returns-input", len(intos) == 1 and peel(intos[0].args[0], transparent=[]) == P(1), "without a needle the input must be returned as it is", site=es.raw["span"]["at"])
+        okn = len(intos) == 1 and peel(intos[0].args[0], transparent=[]) == P(1)
+        if not intos:
+            # `Cow::Borrowed(v)` spelled out
+            some_r = es.reach([t for v, t in si[1] if v == 1][0])
+            bor = []
+            for bi in es.reach(none_t[0]) - some_r:
+                for st in es.blocks[bi]["stmts"]:
+                    if st["k"] == "assign" and st["rv"].get("k") == "agg" and st["rv"].get("agg") == "adt" and st["rv"]["adt"].endswith("Cow") and st["rv"]["variant"] == "Borrowed":
+                        bor.append(es.term_operand(st["rv"]["ops"][0]))
+            okn = len(bor) == 1 and peel(bor[0]) == P(1)
+        ctx.ob(rid, "escape_string|no-needle-returns-input", okn, "without a needle the input must be returned as it is", site=es.raw["span"]["at"])
 
 
 def _ws_calls(b, region):
@@ -295,6 +322,19 @@ def rule_R4(ctx, f):
                         if cnd[0] == "var" and b.local_ty(cnd[1]) == "bool":
                             alts = b.var_alts(cnd[1])
                             vals = sorted(a[1] for a in alts if a[0] == "const")
+                            ors = [a for a in alts if a[0] == "binop" and a[1] == "BitOr"]
+                            if vals == ["false"] and len(ors) == 1 and len(alts) == 2:
+                                # `inf_seen |= upper_bound == f64::INFINITY`
+                                o = ors[0]
+                                other = [z for z in (o[2], o[3]) if peel(z) != cnd]
+                                eqs = other[0] if len(other) == 1 else None
+                                okeq = False
+                                if eqs is not None and eqs[0] == "binop" and eqs[1] == "Eq":
+                                    infs = [z for z in (eqs[2], eqs[3]) if isinstance(z, tuple) and z[0] in ("const", "constdef") and re.search(r"INFINITY|^\+?inf", str(z[1]))]
+                                    ubs = [z for z in (eqs[2], eqs[3]) if is_call(peel(z), ["Bucket::upper_bound", "get_upper_bound"])]
+                                    okeq = len(infs) == 1 and len(ubs) == 1
+                                edge = be[1] if neg else be[2]
+                                guard = okeq and b.edge_dominates(bi, edge, ci.bb)
                             if vals == ["false", "true"]:
                                 edge = be[1] if neg else be[2]
                                 guard = b.edge_dominates(bi, edge, ci.bb)
@@ -377,6 +417,14 @@ def rule_R5(ctx, f):
             if (is_call(x, ["Metric::timestamp_ms", "get_timestamp_ms"]) and const_int(y) == 0) or (is_call(y, ["Metric::timestamp_ms", "get_timestamp_ms"]) and const_int(x) == 0):
                 edge = be[1] if be[0][1] == "Ne" else be[2]
                 g = b.edge_dominates(bi, edge, cs[5].bb) and b.edge_dominates(bi, edge, cs[4].bb) and not b.edge_dominates(bi, edge, cs[6].bb)
+    if not g:
+        # `match timestamp { 0 => {}, ts => write }`: a switch on the value itself
+        for bi in b.reachable_blocks():
+            si = b.switch_info(bi)
+            if si and si[3] != "bool" and is_call(peel(si[0]), ["Metric::timestamp_ms", "get_timestamp_ms"]):
+                zero = [t for v, t in si[1] if v == 0]
+                if len(zero) == 1 and len(si[1]) == 1:
+                    g = b.edge_dominates(bi, si[2], cs[5].bb) and b.edge_dominates(bi, si[2], cs[4].bb) and not b.edge_dominates(bi, si[2], cs[6].bb)
     ctx.ob(rid, "write_sample|timestamp-guard", g, "the timestamp (with its separating space) is written exactly when it is non-zero", site=cs[5].span)
     # optional postfix guard
     d = False
